@@ -1,4 +1,15 @@
 from . import register
 
-register("C05", lean_modules=[], theorems=[], streams=["history"],
-         partial="model and theorems under construction")
+register("C05",
+         lean_modules=["GtModel.Model.Lazy", "GtModel.Props.C05"],
+         theorems=["GtModel.C05.no_internal_error_partial", "GtModel.C05.observations_nested_partial",
+                   "GtModel.C05.history_independent_partial", "GtModel.C05.no_internal_error_structural",
+                   "GtModel.C05.history_independent_structural", "GtModel.C05.editDistance_freed_cached",
+                   "GtModel.C05.editDistance_fresh_J"],
+         streams=["history", "script"],
+         assumptions=["AtomHyp / EditsHyp for the atom classes (see C04)",
+                      "the L3->L2 link scriptG(mkEdit ...) = edits ... is validated by the streams, not proved"],
+         trusted=["harness/lazyinst.py"],
+         partial="no_internal_error / history_independent proved for const/kvp/str/fixed/coll machines over atoms "
+                 "obeying the protocol, for both values of quiet; unconditional for machines without atoms (fixed-key "
+                 "dicts, kvps, positional lists); EditDistance's freed=>cached invariant proved for arbitrary cells")
